@@ -733,8 +733,8 @@ class Fxp():
 
                 if raw:
                     vdtype = None       # raw values keep the (integer) type they are parsed to
-                elif n_frac is not None and n_frac == 0:
-                    vdtype = int
+                elif n_frac is not None and n_frac == 0 and np.asarray(val).dtype.kind in 'iu':
+                    vdtype = int        # (decimal strings with a fraction are floats: they are still to be rounded)
                 else:
                     vdtype = float
 
